@@ -495,6 +495,10 @@ func (n *Nodis) ZUnionStore(destination string, keys []string, weights []float64
 		if len(items) == 0 {
 			// an empty result: the destination ceases to exist
 			tx.delKey(destination)
+			n.signalModifiedKey(destination, meta)
+			n.notify(func() []patch.Op {
+				return []patch.Op{{Type: patch.OpTypeDel, Data: &patch.OpDel{Key: destination}}}
+			})
 			return nil
 		}
 		// the destination is replaced, never merged with its previous content
@@ -581,6 +585,10 @@ func (n *Nodis) ZInterStore(destination string, keys []string, weights []float64
 		if len(items) == 0 {
 			// an empty result: the destination ceases to exist
 			tx.delKey(destination)
+			n.signalModifiedKey(destination, meta)
+			n.notify(func() []patch.Op {
+				return []patch.Op{{Type: patch.OpTypeDel, Data: &patch.OpDel{Key: destination}}}
+			})
 			return nil
 		}
 		// the destination is replaced, never merged with its previous content
